@@ -4,39 +4,15 @@
 (* are drawn without repetition from a collision vocabulary, each as a     *)
 (* plain optional field ("f"), a repeated field ("r") or a member of the   *)
 (* oneof ("m"); lists up to MaxAny use the kinds KindsAny, longer lists up *)
-(* to MaxPlain only plain fields.  For every list TLC emits a tour case per *)
+(* to MaxPlain only plain fields.  For every list TLC emits one case per   *)
 (* API level and per choice of oneof name / nested message / nested enum   *)
 (* (only where a oneof exists: these interact through wrapper types).      *)
 (* The order of the fields matters (makeNameUnique and                     *)
 (* resolveCamelCaseConflicts are order dependent), so lists, not sets.     *)
 (***************************************************************************)
-EXTENDS GoNamesCases, Json
+EXTENDS GoNamesCases, GoNamesVocab, Json
 
 CONSTANTS FieldVocab, OneofVocab, NestedVocab, EnumVocab, Levels, KindsAny, MaxAny, MaxPlain
-
-Codes(x) ==
-  CASE x = "foo" -> <<102, 111, 111>>
-    [] x = "Foo" -> <<70, 111, 111>>
-    [] x = "_foo" -> <<95, 102, 111, 111>>
-    [] x = "X_foo" -> <<88, 95, 102, 111, 111>>
-    [] x = "foo_" -> <<102, 111, 111, 95>>
-    [] x = "foo_1" -> <<102, 111, 111, 95, 49>>
-    [] x = "foo_2" -> <<102, 111, 111, 95, 50>>
-    [] x = "get_foo" -> <<103, 101, 116, 95, 102, 111, 111>>
-    [] x = "GetFoo" -> <<71, 101, 116, 70, 111, 111>>
-    [] x = "set_foo" -> <<115, 101, 116, 95, 102, 111, 111>>
-    [] x = "has_foo" -> <<104, 97, 115, 95, 102, 111, 111>>
-    [] x = "clear_foo" -> <<99, 108, 101, 97, 114, 95, 102, 111, 111>>
-    [] x = "which_foo" -> <<119, 104, 105, 99, 104, 95, 102, 111, 111>>
-    [] x = "build" -> <<98, 117, 105, 108, 100>>
-    [] x = "reset" -> <<114, 101, 115, 101, 116>>
-    [] x = "string" -> <<115, 116, 114, 105, 110, 103>>
-    [] x = "descriptor" -> <<100, 101, 115, 99, 114, 105, 112, 116, 111, 114>>
-    [] x = "proto_reflect" -> <<112, 114, 111, 116, 111, 95, 114, 101, 102, 108, 101, 99, 116>>
-    [] x = "proto_message" -> <<112, 114, 111, 116, 111, 95, 109, 101, 115, 115, 97, 103, 101>>
-    [] x = "bar" -> <<98, 97, 114>>
-    [] x = "Foo_" -> <<70, 111, 111, 95>>
-    [] x = "get_get_foo" -> <<103, 101, 116, 95, 103, 101, 116, 95, 102, 111, 111>>
 
 VARIABLE fs                                   \* sequence of [n |-> name, mem |-> BOOLEAN, rep |-> BOOLEAN]
 Init == fs = <<>>
